@@ -288,12 +288,14 @@ def runHistoryRen (B : Backend) (pairsAsSet : Bool := false) : LF → L → List
             -- a failed quotient: C09 specifies THAT it fails (and that the diagram is left as it was:
             -- the state comparison), not the map handed back with the failure
             a == b && (a == "Err" || match (dec qm : Option FinFun), (dec qi : Option FinFun) with
-              | some qm, some qi => qm.target == qi.target && denseOnto qi.table qi.target &&
+              | some qm, some qi => qm.target == qi.target && qm.table.length == qi.table.length &&
+                  denseOnto qi.table qi.target &&
                   sameKernel qm.table ((List.range qm.table.length).map (fun i => qi.table.getD (ren.getD i i) 0))
               | _, _ => false)
           | .l [.s "coequalizer"], qm, qi =>
             (match (dec qm : Option FinFun), (dec qi : Option FinFun) with
-              | some qm, some qi => qm.target == qi.target &&
+              | some qm, some qi => qm.target == qi.target && qm.table.length == qi.table.length &&
+                  denseOnto qi.table qi.target &&
                   sameKernel qm.table ((List.range qm.table.length).map (fun i => qi.table.getD (ren.getD i i) 0))
               | _, _ => false)
           | .l [.s "h_delete_nodes_witness", _], wm, wi =>
